@@ -13,3 +13,64 @@ Theorem spec_join_rows : forall cfg tables child src conds p, conds <> [] ->
   (In p (joined_rows cfg tables child src conds) <-> In p (tables src) /\ conds_hold cfg child p conds = true).
 Proof. exact joined_rows_spec. Qed.
 Print Assumptions spec_join_rows.
+
+From Coq Require Import String.
+From Morph Require Import Gen.Tables Proofs.TemplateP Proofs.TermP Proofs.RowwiseP Proofs.RowSpecP Proofs.RuleSpecP Proofs.JoinRuleP.
+Local Open Scope N_scope.
+(* on frame rows the engine's join relation is the join condition of the generation rules on the corresponding rows *)
+Theorem engine_join_is_spec_join : forall scfg c p csr psr conds,
+  (forall cd, In cd conds -> sval scfg csr (fst cd) = rget (fst cd) c /\ sval scfg psr (snd cd) = rget (snd cd) p) ->
+  (joins c p conds <-> conds_hold scfg csr psr conds = true).
+Proof. exact joins_iff_conds_hold. Qed.
+Print Assumptions engine_join_is_spec_join.
+
+(* one joined row: subject, predicate (language / datatype, graph) from the child row, the object is the parent's subject
+   term built from the parent row; no statement iff one of them is missing *)
+Theorem join_row_statement : forall cfg fe scfg, cfg_agree cfg scfg -> c_nquads cfg = s_nquads scfg ->
+  forall rl q, pos_ok (r_sk rl) (r_sv rl) (r_stt rl) -> pos_ok (r_pk rl) (r_pv rl) TIri ->
+    (is_plain (r_sk q) = true /\ term_wf (r_sk q) (r_sv q) = true /\ (r_ott rl = TLit -> lits_neutral (segs_of (r_sk q) (r_sv q)) = true)) ->
+    (r_ld rl <> LDNone -> pos_ok (r_ldk rl) (r_ldv rl) TNone) -> graph_ok (c_nquads cfg) rl ->
+  forall x csr psr, row_agree scfg csr [] x (child_names rl) -> row_agree scfg psr parent_prefix x (parent_names q) ->
+    match (rdo ts <- mat_terms cfg fe (join_rule rl q) parent_prefix x;
+           rdo fs <- rflat_rows (finish_row cfg fe 0 rl) ts; extract_triples fs) with
+    | Ok ls => exists line, spec_join_line scfg rl q csr psr = Some line /\ ls = [line]
+    | Err _ => spec_join_line scfg rl q csr psr = None
+    end.
+Proof. exact join_row_is_spec. Qed.
+Print Assumptions join_row_statement.
+
+(* the whole rule: its statements are exactly those of the pairs (child row, parent row) of the two preprocessed frames
+   that agree on every join condition -- many-to-many matches give all pairs, unmatched rows and NULL keys give nothing *)
+Theorem join_rule_statements : forall cfg fe rules get_data scfg, cfg_agree cfg scfg -> c_nquads cfg = s_nquads scfg ->
+  forall rl q, r_ok rl = KParent -> find_rule rules (r_ov rl) = Some q ->
+    pos_ok (r_sk rl) (r_sv rl) (r_stt rl) -> pos_ok (r_pk rl) (r_pv rl) TIri ->
+    (is_plain (r_sk q) = true /\ term_wf (r_sk q) (r_sv q) = true /\ (r_ott rl = TLit -> lits_neutral (segs_of (r_sk q) (r_sv q)) = true)) ->
+    (r_ld rl <> LDNone -> pos_ok (r_ldk rl) (r_ldv rl) TNone) -> graph_ok (c_nquads cfg) rl ->
+  forall na crefs prefs fc fp,
+    s_na scfg = na -> incl (child_names rl) crefs -> incl (parent_names q) prefs ->
+    get_data (r_src rl) (join_crefs fe rules rl) = Ok (preprocess na crefs fc) ->
+    get_data (r_src q) (join_prefs fe rules rl q) = Ok (preprocess na prefs fp) ->
+    (forall c k, In c (preprocess na crefs fc) -> rget (parent_prefix ++ k) c = None) ->
+    (forall n k, In n (child_names rl) -> n <> parent_prefix ++ k) ->
+    forall ls, rule_triples cfg fe rules get_data rl = Ok ls ->
+      forall x, In x ls <-> exists c p, In c (preprocess na crefs fc) /\ In p (preprocess na prefs fp) /\ joins c p (r_ojoin rl) /\
+                                      spec_join_line scfg rl q (srow_of c) (srow_of p) = Some x.
+Proof. exact join_rule_is_spec. Qed.
+Print Assumptions join_rule_statements.
+
+(* non-vacuity: a concrete join with a duplicated key on the parent side *)
+Definition jr (id : string) sk sv ok ov oj : rule :=
+  {| r_id := u id; r_tm := u id; r_src := u id; r_asserted := true; r_sk := sk; r_sv := u sv; r_stt := TIri;
+     r_pk := KConst; r_pv := u "http://e/p"; r_ok := ok; r_ov := u ov; r_ott := TIri; r_ld := LDNone; r_ldk := KNone; r_ldv := [];
+     r_gk := KNone; r_gv := []; r_sjoin := []; r_ojoin := oj |}.
+Definition j_child := jr "C" KTempl "http://e/c/{id}" KParent "P" [(u "k", u "pk")].
+Definition j_parent := jr "P" KTempl "http://e/p/{pid}" KConst "http://e/x" [].
+Definition j_get (src : ustr) (refs : list ustr) : result frame :=
+  if ueqb src (u "C") then Ok [[(u "id", u "1"); (u "k", u "a")]; [(u "id", u "2"); (u "k", u "z")]]
+  else Ok [[(u "pid", u "10"); (u "pk", u "a")]; [(u "pid", u "11"); (u "pk", u "a")]].
+Example join_example :
+  rule_triples {| c_nquads := false; c_printable := true; c_safe := []; c_na := [] |}
+               {| fn_params := fun _ => None; fn_apply := fun _ _ => FRaise; fn_table := [] |} [j_child; j_parent] j_get j_child
+  = Ok [u "<http://e/c/1> <http://e/p> <http://e/p/10>"; u "<http://e/c/1> <http://e/p> <http://e/p/11>"].
+Proof. vm_compute. reflexivity. Qed.
+Print Assumptions join_example.
